@@ -133,23 +133,16 @@ Theorem C11_tolerated_frame_in_batch :
 Proof. exact tolerated_in_batch. Qed.
 Print Assumptions C11_tolerated_frame_in_batch.
 
-(* (10) the error branch, explicitly: process() lets an exception out (dropping the rest of the read)
-   exactly for a second StreamReset of a server stream whose handler task was already popped
-   (Handler.cancel: KeyError).  h2 never emits two StreamResets for one stream; the driver checks that on
-   every recorded trace.  RequestReceived on a client no longer raises (D21 repaired). *)
-Theorem C11_raising_events_exact :
-  forall s e,
-  raises s e = true <->
-  c_closed (st_conn s) = false /\
-  exists i rm code c, e = EReset i rm code /\ c_side (st_conn s) = Server /\
-                      project i s = Some c /\ cs_in_tasks c = false.
-Proof. exact raises_exactly. Qed.
-Print Assumptions C11_raising_events_exact.
+(* (10) nothing leaves process(): no event, in no state, on either side lets an exception out of the
+   connection's input path (D11, D21 and the KeyError of Handler.cancel are repaired), so one read is just
+   a run and never loses its tail *)
+Theorem C11_never_raises : forall s e, raises s e = false.
+Proof. exact never_raises. Qed.
+Print Assumptions C11_never_raises.
 
 Theorem C11_batches_are_runs :
-  forall es s acc, no_raise es s = true ->
-  fst (fst (run_batch es s acc)) = run es s /\ snd (run_batch es s acc) = false.
-Proof. exact run_batch_no_raise. Qed.
+  forall es s acc, fst (fst (run_batch es s acc)) = run es s /\ snd (run_batch es s acc) = false.
+Proof. exact run_batch_is_run. Qed.
 Print Assumptions C11_batches_are_runs.
 
 (* (11) the registry stays a map: stream ids stay distinct *)
@@ -158,40 +151,10 @@ Theorem C11_registry_keys_distinct :
 Proof. exact run_keeps_keys_distinct. Qed.
 Print Assumptions C11_registry_keys_distinct.
 
-(* (12) isolation inside one read (one data_received call): an event that is neither addressed to call i
-   nor fatal does not change what call i gets from that read.
-   On a client connection: for EVERY read, whatever the peer sends (full strength; D21 repaired) *)
-Theorem C11_client_never_raises :
-  forall es s, c_side (st_conn s) = Client -> no_raise es s = true.
-Proof. exact client_never_raises. Qed.
-Print Assumptions C11_client_never_raises.
-
-Theorem C11_read_isolation_client :
-  forall i es1 e es2 s acc,
-  c_side (st_conn s) = Client -> addr e <> Some i -> fatal e = false ->
-  option_map strip (project i (fst (fst (run_batch (es1 ++ e :: es2) s acc)))) =
-  option_map strip (project i (fst (fst (run_batch (es1 ++ es2) s acc)))).
-Proof. exact read_isolation_client. Qed.
-Print Assumptions C11_read_isolation_client.
-
-(* On a server connection the KeyError of (10) must be excluded; the hypothesis is kept explicit and
-   static: every registered stream still has its handler task when the read starts, the read resets no
-   stream twice (what h2 guarantees), and contains no client-style registration *)
-Theorem C11_read_isolation_server :
-  forall i es1 e es2 s acc,
-  c_side (st_conn s) = Server -> all_in_tasks s ->
-  forallb (fun x => negb (is_register x)) (es1 ++ e :: es2) = true ->
-  NoDup (reset_ids (es1 ++ e :: es2)) ->
-  addr e <> Some i -> fatal e = false ->
-  option_map strip (project i (fst (fst (run_batch (es1 ++ e :: es2) s acc)))) =
-  option_map strip (project i (fst (fst (run_batch (es1 ++ es2) s acc)))).
-Proof. exact read_isolation_server. Qed.
-Print Assumptions C11_read_isolation_server.
-
-(* both are instances of: no raising input in either read *)
+(* (12) isolation inside one read (one data_received call), full strength, both sides, every read: an
+   event that is neither addressed to call i nor fatal does not change what call i gets from that read *)
 Theorem C11_read_isolation :
   forall i es1 e es2 s acc,
-  no_raise (es1 ++ e :: es2) s = true -> no_raise (es1 ++ es2) s = true ->
   addr e <> Some i -> fatal e = false ->
   option_map strip (project i (fst (fst (run_batch (es1 ++ e :: es2) s acc)))) =
   option_map strip (project i (fst (fst (run_batch (es1 ++ es2) s acc)))).
